@@ -2329,10 +2329,184 @@ def gen_model_construction():
 
 
 
+# ----------------------------------------------------------------------------------------------
+# C14: the straight-line parts of src/illumina_exon_corrector.py (IlluminaExonCorrector): class constants, the four
+# static scoring predicates, the site distance, and the two acceptance tests of correct_exons (4-bp rule with its
+# "strictly inside the read" guard, guard of the skipped-exon rule)
+
+class _IllTr(ExprTr):
+    """ExprTr + `IlluminaExonCorrector.<CONST>`, calls of the class's static methods (via the class or `self`),
+    `exons[0][0]` / `exons[-1][1]` (-> read_start / read_end), (in)equality of two intervals"""
+    CLS = "IlluminaExonCorrector"
+
+    def __init__(self, env, consts, sigs):
+        ExprTr.__init__(self, env)
+        self.consts = consts
+        self.sigs = sigs
+
+    def with_name(self, name, ty):
+        t = _IllTr(self.env, self.consts, self.sigs)
+        t.env[name] = ty
+        return t
+
+    def tr(self, e):
+        if isinstance(e, ast.Attribute) and isinstance(e.value, ast.Name) and e.value.id == self.CLS:
+            if e.attr not in self.consts:
+                raise TranslationError("unknown class constant %s.%s" % (self.CLS, e.attr))
+            return ("ill_" + e.attr, self.consts[e.attr])
+        if isinstance(e, ast.Call) and isinstance(e.func, ast.Attribute) and isinstance(e.func.value, ast.Name) \
+                and e.func.value.id in (self.CLS, "self") and e.func.attr in self.sigs and not e.keywords:
+            params, ret = self.sigs[e.func.attr]
+            args = [self.tr(a) for a in e.args]
+            if [t for _, t in args] != [t for _, t in params]:
+                raise TranslationError("call of %s with argument types %s" % (e.func.attr, [t for _, t in args]))
+            return ("(ill_%s %s)" % (e.func.attr, " ".join(a for a, _ in args)), ret)
+        if isinstance(e, ast.Subscript) and isinstance(e.value, ast.Subscript):
+            txt = ast.unparse(e).replace(" ", "")
+            if txt == "exons[0][0]":
+                return ("read_start", "Int")
+            if txt == "exons[-1][1]":
+                return ("read_end", "Int")
+            raise TranslationError("unsupported nested subscript %s" % txt)
+        if isinstance(e, ast.Compare) and len(e.ops) == 1 and isinstance(e.ops[0], (ast.Eq, ast.NotEq)):
+            a, ta = self.tr(e.left)
+            b, tb = self.tr(e.comparators[0])
+            if ta == "Iv" and tb == "Iv":
+                return ("(decide (%s %s %s))" % (a, "=" if isinstance(e.ops[0], ast.Eq) else "≠", b), "Bool")
+        return ExprTr.tr(self, e)
+
+
+def _ill_block(stmts, tr, ret_ty):
+    """`x = expr` lets followed by one `return expr`"""
+    lines = []
+    for s in stmts:
+        if isinstance(s, ast.Expr) and isinstance(s.value, ast.Constant) and isinstance(s.value.value, str):
+            continue
+        if isinstance(s, ast.Assign) and len(s.targets) == 1 and isinstance(s.targets[0], ast.Name):
+            txt, t = tr.tr(s.value)
+            lines.append("  let %s := %s" % (s.targets[0].id, txt))
+            tr = tr.with_name(s.targets[0].id, t)
+            continue
+        if isinstance(s, ast.Return) and s is stmts[-1]:
+            txt, t = tr.tr(s.value)
+            if t != ret_ty:
+                raise TranslationError("return type %s, expected %s" % (t, ret_ty))
+            lines.append("  " + txt)
+            return "\n".join(lines)
+        raise TranslationError("unsupported statement %s" % type(s).__name__)
+    raise TranslationError("path without return")
+
+
+ILL_SIGS = {
+    "skipped_score": ([("left", "Iv"), ("right", "Iv"), ("old", "Iv")], "Int"),
+    "better_skipped": ([("left", "Iv"), ("right", "Iv"), ("old", "Iv"), ("score", "Int")], "Bool"),
+    "right_length": ([("left", "Iv"), ("right", "Iv"), ("old", "Iv")], "Bool"),
+    "one_differs": ([("left", "Iv"), ("right", "Iv"), ("old", "Iv")], "Bool"),
+}
+ILL_ORDER = ["skipped_score", "better_skipped", "right_length", "one_differs"]
+
+
+def gen_illumina():
+    tree = parse("src/illumina_exon_corrector.py")
+    cls = "IlluminaExonCorrector"
+    cc = class_consts(tree, cls)
+    info = {}
+    consts = {}
+    out = ["-- GENERATED by harness/translate.py from /repo/src/illumina_exon_corrector.py -- do not edit",
+           "import IsoVerif.Gen.Prims", "namespace IsoVerif.Gen", ""]
+    for nm in ("MAX_SCORE", "EXON_LENGTH", "SIDE_DIFF"):
+        v = cc.get(nm)
+        if isinstance(v, bool) or not isinstance(v, int):
+            raise TranslationError("%s.%s is not an int constant: %r" % (cls, nm, v))
+        consts[nm] = "Int"
+        out.append("def ill_%s : Int := %d" % (nm, v))
+    ab = cc.get("ABSENT_INTRON")
+    if not (isinstance(ab, tuple) and len(ab) == 2 and all(isinstance(x, int) and not isinstance(x, bool) for x in ab)):
+        raise TranslationError("%s.ABSENT_INTRON is not a pair of ints: %r" % (cls, ab))
+    consts["ABSENT_INTRON"] = "Iv"
+    out.append("def ill_ABSENT_INTRON : Iv := (%d, %d)" % ab)
+    out.append("")
+    info["constants"] = {k: cc[k] for k in ("MAX_SCORE", "EXON_LENGTH", "SIDE_DIFF", "ABSENT_INTRON")}
+    sigs = {}
+    for name in ILL_ORDER:
+        fn = find_def(tree, name, cls)
+        params, ret = ILL_SIGS[name]
+        if not any(isinstance(d, ast.Name) and d.id == "staticmethod" for d in fn.decorator_list):
+            raise TranslationError("%s.%s is no longer a static method" % (cls, name))
+        argnames = [a.arg for a in fn.args.args]
+        if argnames != [p for p, _ in params] or fn.args.defaults:
+            raise TranslationError("%s: parameters %s, expected %s" % (name, argnames, [p for p, _ in params]))
+        tr = _IllTr(dict(params), consts, sigs)
+        body = _ill_block(fn.body, tr, ret)
+        out.append("def ill_%s %s : %s :=\n%s\n" % (name, " ".join("(%s : %s)" % pt for pt in params), ret, body))
+        sigs[name] = (params, ret)
+    # ---- correct_exons: shape + the straight-line tests
+    ce = find_def(tree, "correct_exons", cls)
+    if [a.arg for a in ce.args.args] != ["self", "exons"]:
+        raise TranslationError("correct_exons: parameters changed")
+    loops = [n for n in ce.body if isinstance(n, ast.For)]
+    if len(loops) != 1 or ast.unparse(loops[0].target) != "i" or ast.unparse(loops[0].iter) != "introns":
+        raise TranslationError("correct_exons: expected exactly one top-level loop `for i in introns`")
+    outer = loops[0]
+    inner = [n for n in outer.body if isinstance(n, ast.For)]
+    if len(inner) != 1 or ast.unparse(inner[0].target) != "s" or ast.unparse(inner[0].iter) != "self.short_introns":
+        raise TranslationError("correct_exons: expected one loop `for s in self.short_introns` per read intron")
+    dist = [n for n in inner[0].body if isinstance(n, ast.Assign) and ast.unparse(n.targets[0]) == "x"]
+    if len(dist) != 1:
+        raise TranslationError("correct_exons: site distance `x = ...` not found")
+    tr = _IllTr({"i": "Iv", "s": "Iv"}, consts, sigs)
+    txt, t = tr.tr(dist[0].value)
+    if t != "Int":
+        raise TranslationError("correct_exons: site distance is not an int expression")
+    out.append("/-- `x = ...` of the inner loop over the short-read introns -/")
+    out.append("def ill_site_distance (i : Iv) (s : Iv) : Int :=\n  %s\n" % txt)
+
+    def appends(node, what):
+        return [n for n in ast.walk(node) if isinstance(n, ast.Call) and
+                ast.unparse(n.func) == "corrected_introns.append" and len(n.args) == 1 and ast.unparse(n.args[0]) == what]
+
+    def the_if(what):
+        ifs = [n for n in ast.walk(outer) if isinstance(n, ast.If) and
+               any(isinstance(b, ast.Expr) and b.value in appends(n, what) for b in n.body)]
+        if len(ifs) != 1 or len(appends(ce, what)) != 1:
+            raise TranslationError("correct_exons: expected exactly one `if ...: corrected_introns.append(%s)`" % what)
+        return ifs[0]
+    single = the_if("sh")
+    pair = the_if("left")
+    if the_if("right") is not pair:
+        raise TranslationError("correct_exons: left and right are appended under different tests")
+    keep = the_if("i")
+    if ast.unparse(keep.test) != "not appended" or keep not in outer.body or single not in outer.body:
+        raise TranslationError("correct_exons: the keep-original branch or the single-junction test changed place")
+    env = {"i": "Iv", "sh": "Iv", "read_start": "Int", "read_end": "Int"}
+    txt, t = _IllTr(env, consts, sigs).tr(single.test)
+    if t != "Bool":
+        raise TranslationError("correct_exons: single-junction test is not boolean")
+    out.append("/-- test under which the best single match `sh` replaces read intron `i`\n"
+               "    (`exons[0][0]` = read_start, `exons[-1][1]` = read_end) -/")
+    out.append("def ill_single_rule (i : Iv) (sh : Iv) (read_start : Int) (read_end : Int) : Bool :=\n  %s\n" % txt)
+    env = {"left": "Iv", "right": "Iv", "read_start": "Int", "read_end": "Int"}
+    txt, t = _IllTr(env, consts, sigs).tr(pair.test)
+    if t != "Bool":
+        raise TranslationError("correct_exons: skipped-exon acceptance test is not boolean")
+    out.append("/-- test under which the pair `(left, right)` found by the skipped-exon search replaces the read intron -/")
+    out.append("def ill_pair_guard (left : Iv) (right : Iv) (read_start : Int) (read_end : Int) : Bool :=\n  %s\n" % txt)
+    info["single_rule"] = ast.unparse(single.test)
+    info["pair_guard"] = ast.unparse(pair.test)
+    # the result expression
+    ret = ce.body[-1]
+    want = "get_exons((exons[0][0], exons[-1][1]), corrected_introns)"
+    if not isinstance(ret, ast.Return) or ast.unparse(ret.value) != want:
+        raise TranslationError("correct_exons: result is no longer %s" % want)
+    out.append("end IsoVerif.Gen\n")
+    return "\n".join(out), info
+
+
+
 GENERATORS = [("Prims", gen_prims), ("Enums", gen_enums), ("EventClasses", gen_event_classes),
               ("Strategies", gen_strategies), ("Constants", gen_constants), ("SharedState", gen_shared_state),
               ("SetSites", gen_set_sites),            # C06
-              ("Corrector", gen_corrector),            # C14
+              ("Corrector", gen_corrector), ("Illumina", gen_illumina),   # C14
               ("CounterTables", gen_counter_tables), ("Weights", gen_weights),   # C02
               ("CacheProtocol", gen_cache_protocol),   # C20
               ("SampleState", gen_sample_state),       # C10
